@@ -333,9 +333,35 @@ def lam_refs(paths: list, model: Model, mk_ev) -> list:
         cache[q] = ("lam", tuple(vs[p_] for p_ in params), ps[0].value)
         return cache[q]
 
+    def lam_of_bound(recv, name):
+        key = ("bound", recv, name)
+        if key in cache:
+            return cache[key]
+        cache[key] = None
+        cands = [m_ for m_ in model.methods_by_name.get(name, []) if not m_.is_generator]
+        if len(cands) != 1:
+            return None
+        r = cands[0]
+        a = r.node.args
+        params = [x.arg for x in a.posonlyargs + a.args][1:]
+        if a.kwonlyargs or a.vararg or a.kwarg or not 1 <= len(params) <= 3:
+            return None
+        try:
+            ev = mk_ev()
+            vs = {p_: ("var", f"%lam_{i}") for i, p_ in enumerate(params)}
+            ps = [p_ for p_ in ev.run(r, vs, recv) if p_.kind == "return"]
+        except Exception:  # noqa: BLE001
+            return None
+        if len(ps) != 1 or ps[0].conds or has_unknown(ps[0].value):
+            return None
+        cache[key] = ("lam", tuple(vs[p_] for p_ in params), ps[0].value)
+        return cache[key]
+
     def fn(s_):
         if s_[0] == "ref" and isinstance(s_[1], str):
             return lam_of(s_[1])
+        if s_[0] == "bound" and len(s_) == 3 and isinstance(s_[2], str):
+            return lam_of_bound(s_[1], s_[2])
         return None
 
     out = []
